@@ -166,6 +166,12 @@ def evalConst (c : Ctx) (line : Nat) : CExpr → Except Diag CVal
       | some (.const _) => err c "non-integer-in-expression" line
       | some _ => err c "not-a-constant" line
 
+/-- an import path names a FILE: `./` segments are dropped (all files of a program live in one
+directory here, so any other directory segment names a directory that does not exist; the real
+parser compares files with `os.path.samefile`) -/
+def normPath (p : String) : String :=
+  "/".intercalate ((p.splitOn "/").filter (fun s => s ≠ "." && s ≠ ""))
+
 inductive Kind | proto | msg | enum deriving DecidableEq
 
 def checkOption (c : Ctx) (k : Kind) (line : Nat) (name : String) (v : CVal) : Except Diag Unit :=
@@ -237,7 +243,7 @@ def checkItem (imp : Ctx → Nat → String → Except Diag Ent) (c : Ctx) (k : 
     if ¬ (1 ≤ nbits ∧ nbits ≤ 64) then err c "invalid-uint-width" line else do
     let r ← checkEnumMembers c nbits members [] []
     -- nothing but members may be declared inside an enum
-    let _ ← checkItems imp c .enum extra {}
+    let _ ← checkItems imp c .enum extra { members := r.1 }   -- the members read so far are in the enum's scope
     if k = .enum then err c "enum-in-enum" line else
     push c line { st with nextId := st.nextId + 1 } name (.enum (1000 * c.stack.length + st.nextId) nbits r.2 r.1)
   | .msg line name ext items, st =>
@@ -275,7 +281,8 @@ def checkItem (imp : Ctx → Nat → String → Except Diag Ent) (c : Ctx) (k : 
     match name, cv with
     | "max_bytes", .int x => .ok { st' with maxBytes := some x.toNat }
     | _, _ => .ok st'
-  | .import_ line asName file, st =>
+  | .import_ line asName file0, st =>
+    let file := normPath file0
     if k ≠ .proto then do
       -- the imported file is read before the placement is rejected
       let _ ← imp c line file
